@@ -497,6 +497,22 @@ class FHInterp(Interp):
         return res.pop() if len(res) == 1 else None
 
     def assume(self, test, polarity, st, frame):
+        if isinstance(test, ast.UnaryOp) and isinstance(test.op, ast.Not):
+            return self.assume(test.operand, not polarity, st, frame)
+        if isinstance(test, ast.BoolOp):
+            conj = isinstance(test.op, ast.And)
+            if conj == polarity:
+                for v in test.values:
+                    self.assume(v, polarity, st, frame)
+                return
+            # (a and b) false / (a or b) true: the one undecided operand carries the polarity only if every
+            # other operand is decided the *neutral* way (True for `and`, False for `or`).  (The base class
+            # draws the conclusion also when another operand already explains the outcome -- unsound.)
+            ds = [self.decide(v, st, frame) for v in test.values]
+            und = [v for v, d in zip(test.values, ds) if d is None]
+            if len(und) == 1 and all(d is None or d is conj for d in ds):
+                self.assume(und[0], polarity, st, frame)
+            return
         Interp.assume(self, test, polarity, st, frame)
         # integer refinement: a != b together with a >= b gives a >= b + 1 (and symmetrically)
         if isinstance(test, ast.Compare) and len(test.ops) == 1 and isinstance(test.ops[0], (ast.Eq, ast.NotEq)):
@@ -577,7 +593,15 @@ class FHInterp(Interp):
         return Interp.ev_UnaryOp(self, e, st, frame)
 
     def binop(self, op, a, b, st):
-        return Interp.binop(self, op, self.undelegate(a), self.undelegate(b), st)
+        a, b = self.undelegate(a), self.undelegate(b)
+        if isinstance(op, (ast.Add, ast.Sub)):
+            # a selection shifted by a scalar is the selection (same mask) of the shifted vector
+            if isinstance(a, Sel) and as_lin_val(b) is not None:
+                d = as_lin_val(b)
+                return Sel(a.base.shift(d if isinstance(op, ast.Add) else -d), a.mask)
+            if isinstance(b, Sel) and as_lin_val(a) is not None and isinstance(op, ast.Add):
+                return Sel(b.base.shift(as_lin_val(a)), b.mask)
+        return Interp.binop(self, op, a, b, st)
 
     def index(self, base, idx, e, st, frame):
         base = self.undelegate(base)
